@@ -28,15 +28,19 @@ let genuine c pw = genuine_k c (key_of_pw pw)
 let prop_decrypt c pw = prop_decrypt_k c (key_of_pw pw)
 let prop_roundtrip c pw = prop_roundtrip_k c (key_of_pw pw)
 
+(* error classes: err:auth = gcm.Open's authentication failure (model Err 1), err:other = every
+   other error return (Decrypt's length check Err 2, key decoding Err 3 / Err 4) *)
 let res_of_string s : byte list outcome =
-  if s = "err" then Err O
+  if s = "err:auth" then Err (S O)
+  else if s = "err:other" then Err (S (S O))
   else if s = "panic" then Panic
   else if String.length s >= 3 && String.sub s 0 3 = "ok:" then
     Ok (bytes_of_hex (String.sub s 3 (String.length s - 3)))
   else fail "bad result %s" s
 let string_of_res (r : byte list outcome) = match r with
   | Ok p -> "ok:" ^ hex_of_bytes p
-  | Err _ -> "err"
+  | Err (S O) -> "err:auth"
+  | Err _ -> "err:other"
   | Panic -> "panic"
   | OutOfFuel -> "fuel"
 
@@ -48,6 +52,21 @@ let typed sc (r : byte list outcome) = match r with Ok k -> Ok (type_byte sc :: 
 let verdict ~prop ~model ~obs ~tags ?(finding="-") ?(nontrivial=true) why =
   { prop_ok = prop; model_eq = (model = obs); nontrivial; finding; tags;
     detail = (if prop && model = obs then "" else Printf.sprintf "%s model=%s" why model) }
+
+(* the structural modifications of the harness's c37Mutate, mirrored on the model's ciphertext *)
+let mutate (d : byte list) (op : string) (a : int) (b : int) : byte list =
+  let n = List.length d in
+  let arr = Array.of_list d in
+  let sub i j = Array.to_list (Array.sub arr i (j - i)) in
+  match op with
+  | "set" -> if a < n then (arr.(a) <- byte_of_int b; Array.to_list arr) else d
+  | "swap" -> if a < n && b < n then (let t = arr.(a) in arr.(a) <- arr.(b); arr.(b) <- t; Array.to_list arr) else d
+  | "del" -> if a < n then sub 0 a @ sub (a + 1) n else d
+  | "ins" -> if a <= n then sub 0 a @ [byte_of_int b] @ sub a n else d
+  | "front" -> if a <= n then sub a n else d
+  | "dup" -> if a <= n then d @ sub (n - a) n else d
+  | "zerotag" -> if n >= 16 then sub 0 (n - 16) @ List.init 16 (fun _ -> byte_of_int 0) else d
+  | _ -> fail "C37: unknown modification %s" op
 
 let size_tag n = if n = 0 then "len0" else if n < 16 then "len<16" else if n mod 16 = 0 then "len%16=0" else "len>16"
 
@@ -63,7 +82,7 @@ let check inp obs =
     let n = List.length data in
     let prop = prop_decrypt cipher pw data r in
     verdict ~prop ~model ~obs
-      ~tags:("dec," ^ (if n < 12 then "dec-short<12" else if n < 28 then "dec-short<28" else "dec-long") ^ ",res-" ^ (String.sub model 0 (min 3 (String.length model))))
+      ~tags:("dec," ^ (if n < 12 then "dec-short<12" else if n < 28 then "dec-short<28" else "dec-long") ^ ",dec-res-" ^ (String.sub model 0 (min 3 (String.length model))))
       (if r = Panic then "Decrypt panicked" else "Decrypt accepted a non-genuine ciphertext")
   | _ ->
   match f, o with
@@ -75,7 +94,8 @@ let check inp obs =
     let prop = prop_roundtrip cipher pw msg ctb r in
     verdict ~prop ~model ~obs ~tags:("enc," ^ size_tag (List.length msg) ^ (if pw = [] then ",pw-empty" else "")) "round trip"
   | [("flip" | "trunc" | "ext" | "wrongpw") as kind; nonce; msg; pw; a], [ct; res]
-  | [("flip") as kind; nonce; msg; pw; a; _], [ct; res] ->
+  | [("flip") as kind; nonce; msg; pw; a; _], [ct; res]
+  | [("mut") as kind; nonce; msg; pw; a; _; _], [ct; res] ->
     let nonce = bytes_of_hex nonce and msg = bytes_of_hex msg and pw = bytes_of_hex pw in
     let ctb = bytes_of_hex ct and r = res_of_string res in
     let mct = (match encrypt cipher pw nonce msg with Ok c -> c | _ -> []) in
@@ -90,6 +110,9 @@ let check inp obs =
         (truncate mct (nat_of_int l), pw,
          if l < 12 then "trunc<12" else if l < 28 then "trunc<28" else if l >= total then "trunc-none" else "trunc>=28")
       | "ext", _ -> (mct @ bytes_of_hex a, pw, "ext")
+      | "mut", [_; _; _; _; op; x; y] ->
+        let d = mutate mct op (int_of_n (n_of_hex x)) (int_of_n (n_of_hex y)) in
+        (d, pw, "mut-" ^ op ^ (if d = mct then ",mut-none" else ""))
       | "wrongpw", _ -> (mct, bytes_of_hex a, if bytes_of_hex a = pw then "wrongpw-same" else "wrongpw")
       | _ -> fail "C37: bad input %s" inp) in
     let model = hex_of_bytes mct ^ " " ^ string_of_res (decrypt cipher pw2 data) in
@@ -122,12 +145,12 @@ let check inp obs =
       | Ok c -> hex_of_bytes c ^ " " ^ string_of_res (typed sc (decrypt_private_key cipher pw c sc))
       | _ -> "panic") in
     let valid = valid_key sc raw in
-    (* in scope of the property only when [raw] is the encoding of a key: then it must come
-       back.  Otherwise (not a key of the scheme) the outcome is compared with the model only. *)
-    let prop = if valid then out_eqb r (typed sc (Ok raw)) else true in
+    (* the encoding of a key must come back; anything else must be refused with an error, never
+       a crash and never a key (C37_key_total, C37_non_key_refused) *)
+    let prop = if valid then out_eqb r (typed sc (Ok raw)) else (match r with Err _ -> true | _ -> false) in
     verdict ~prop ~model ~obs
-      ~tags:("keydec-" ^ s ^ (if valid then "-valid" else if r = Panic then "-invalid-panic" else "-invalid-err"))
-      "decoding a decrypted key"
+      ~tags:("keydec-" ^ s ^ (if valid then "-valid" else if List.length raw = 32 && s = "secp" then "-invalid-scalar" else "-invalid-length"))
+      (if r = Panic then "DecryptPrivateKey crashed on a decrypted byte string that is not a key" else "decoding a decrypted key")
   | ["file"; s; _seed; pw], [enc; ct; res] ->
     let sc = scheme_of s in
     let pw = bytes_of_hex pw and encb = bytes_of_hex enc and ctb = bytes_of_hex ct in
@@ -136,9 +159,65 @@ let check inp obs =
     let model = enc ^ " " ^ ct ^ " " ^ string_of_res m in
     let prop = genuine cipher pw ctb encb && out_eqb r (typed sc (Ok encb)) in
     verdict ~prop ~model ~obs ~tags:("file-" ^ s) "file round trip"
+  | ["filemut"; s; _seed; pw; what; a; b], [enc; ct; res] ->
+    let sc = scheme_of s in
+    let pw = bytes_of_hex pw and encb = bytes_of_hex enc and ctb = bytes_of_hex ct in
+    let r = res_of_string res in
+    let data, pw2, sc2 = (match what with
+      | "pw" -> (ctb, bytes_of_hex a, sc)
+      | "flip" -> (flip_bit ctb (nat_of_int (int_of_n (n_of_hex a))) (n_of_hex b), pw, sc)
+      | "trunc" -> (truncate ctb (nat_of_int (int_of_n (n_of_hex a))), pw, sc)
+      | "type" -> (ctb, pw, (match int_of_n (n_of_hex a) mod 3 with 0 -> Ed25519 | 1 -> Sr25519 | _ -> Secp256k1))
+      | _ -> fail "C37: bad input %s" inp) in
+    let m = typed sc2 (decrypt_private_key cipher pw2 data sc2) in
+    let model = enc ^ " " ^ ct ^ " " ^ string_of_res m in
+    let changed = not (data = ctb && pw2 = pw) in
+    (* the stored ciphertext is genuine; a modified ciphertext or another password is refused; a
+       changed Type field is not a modification of the ciphertext: whatever comes back must be
+       the stored key bytes or an error, never a crash *)
+    let prop = genuine cipher pw ctb encb
+               && (if changed then (match r with Err _ -> true | _ -> false)
+                   else if sc2 = sc then out_eqb r (typed sc (Ok encb))
+                   else (match r with Ok k -> k = type_byte sc2 :: encb | Err _ -> true | _ -> false)) in
+    verdict ~prop ~model ~obs ~tags:("filemut-" ^ what ^ (if changed then "" else ",filemut-unchanged"))
+      "tampered key file / other password not refused"
   | _ ->
     (* an Encrypt error or a shape we do not know: never expected *)
     { prop_ok = false; model_eq = false; nontrivial = false; finding = "-"; tags = "bad-shape";
       detail = "unexpected observation shape" }
 
-let () = run_driver check
+(* vm_compute cross-check: the model's observables recomputed inside Coq from the Gallina
+   definitions (AES-256, GCM, BLAKE2b) and compared with the implementation's *)
+let coq inp obs =
+  let cb h = coq_bytes (bytes_of_hex h) in
+  let cres (r : string) = match res_of_string r with
+    | Ok p -> "0%N " ^ coq_bytes p | Err (S O) -> "1%N []" | Err _ -> "2%N []" | _ -> "3%N []" in
+  let scn = function "ed" -> "Ed25519" | "sr" -> "Sr25519" | _ -> "Secp256k1" in
+  let tb = function "ed" -> "1" | "sr" -> "2" | _ -> "3" in
+  match split_ws inp, split_ws obs with
+  | ["dec"; data; pw], [res] ->
+    Some (Printf.sprintf "res_is (decrypt aes256 %s %s) %s" (cb pw) (cb data) (cres res))
+  | ["enc"; nonce; msg; pw], [ct; res] ->
+    Some (Printf.sprintf "match encrypt aes256 %s %s %s with Ok c => bytes_eqb c %s && res_is (decrypt aes256 %s c) %s | _ => false end"
+      (cb pw) (cb nonce) (cb msg) (cb ct) (cb pw) (cres res))
+  | ["flip"; nonce; msg; pw; pos; bit], [ct; res] ->
+    Some (Printf.sprintf "match encrypt aes256 %s %s %s with Ok c => bytes_eqb c %s && res_is (decrypt aes256 %s (flip_bit c %d %s)) %s | _ => false end"
+      (cb pw) (cb nonce) (cb msg) (cb ct) (cb pw) (int_of_n (n_of_hex pos)) (coq_n (n_of_hex bit)) (cres res))
+  | ["trunc"; nonce; msg; pw; l], [ct; res] ->
+    Some (Printf.sprintf "match encrypt aes256 %s %s %s with Ok c => bytes_eqb c %s && res_is (decrypt aes256 %s (truncate c %d)) %s | _ => false end"
+      (cb pw) (cb nonce) (cb msg) (cb ct) (cb pw) (int_of_n (n_of_hex l)) (cres res))
+  | ["wrongpw"; nonce; msg; pw; pw2], [ct; res] ->
+    Some (Printf.sprintf "match encrypt aes256 %s %s %s with Ok c => bytes_eqb c %s && res_is (decrypt aes256 %s c) %s | _ => false end"
+      (cb pw) (cb nonce) (cb msg) (cb ct) (cb pw2) (cres res))
+  | ["ext"; nonce; msg; pw; extra], [ct; res] ->
+    Some (Printf.sprintf "match encrypt aes256 %s %s %s with Ok c => bytes_eqb c %s && res_is (decrypt aes256 %s (c ++ %s)) %s | _ => false end"
+      (cb pw) (cb nonce) (cb msg) (cb ct) (cb pw) (cb extra) (cres res))
+  | ["keydec"; s; nonce; raw; pw], [ct; res] ->
+    Some (Printf.sprintf "match encrypt aes256 %s %s %s with Ok c => bytes_eqb c %s && res_is (typed_res %s%%N (decrypt_private_key aes256 %s c %s)) %s | _ => false end"
+      (cb pw) (cb nonce) (cb raw) (cb ct) (tb s) (cb pw) (scn s) (cres res))
+  | ["key"; s; nonce; kb; pw], [_; ct; res] ->
+    Some (Printf.sprintf "match encrypt_private_key aes256 %s %s %s with Ok c => bytes_eqb c %s && res_is (typed_res %s%%N (decrypt_private_key aes256 %s c %s)) %s | _ => false end"
+      (cb pw) (cb nonce) (cb kb) (cb ct) (tb s) (cb pw) (scn s) (cres res))
+  | _ -> None
+
+let () = run_driver ~coq check
